@@ -1,6 +1,7 @@
 package simharness
 
 import (
+	"io"
 	"os"
 	"path/filepath"
 	"bytes"
@@ -48,6 +49,13 @@ func (w *slowWriter) Write(p []byte) (int, error) {
 	case "fail":
 		c.res = "fail"
 		w.calls = append(w.calls, c)
+		// (an error is an error, io.EOF included: a pipe whose reader went away reports it)
+		switch n % 3 {
+		case 1:
+			return 0, io.EOF
+		case 2:
+			return 0, fmt.Errorf("injected writer failure #%d: %w", n, io.EOF)
+		}
 		return 0, fmt.Errorf("injected writer failure #%d", n)
 	case "short":
 		k := len(p) / 2
